@@ -234,7 +234,7 @@ class Squid:
 
     def _start(self, wait=20.0):
         chown_r(self.run)
-        for f in glob.glob('/dev/shm/squid-%s-*' % self.svc):
+        for f in glob.glob('/dev/shm/squid-%s-*' % self.svc) + glob.glob('/dev/shm/%s-*' % self.svc):
             os.unlink(f)
         args = [os.path.join(self.tree, 'src', 'squid'), '-f', self.conf, '-n', self.svc]
         args += ['--foreground'] if self.workers else ['-N']
@@ -247,8 +247,9 @@ class Squid:
             if self.proc.poll() is not None:
                 raise MachineryError('squid exited at start rc=%s\n%s' % (self.proc.returncode, self.tail_log()))
             try:
-                s = socket.create_connection(('127.0.0.1', self.port), timeout=0.3)
-                s.close()
+                for pt in (self.ports if self.workers >= 2 else [self.port]):      # SMP: every worker listens on its own port
+                    s = socket.create_connection(('127.0.0.1', pt), timeout=0.3)
+                    s.close()
                 return self
             except OSError:
                 time.sleep(0.05)
@@ -266,7 +267,7 @@ class Squid:
             except subprocess.TimeoutExpired:
                 os.killpg(p.pid, signal.SIGKILL)
                 raise MachineryError('squid -z timed out\n' + self.tail_log())
-        for f in glob.glob('/dev/shm/squid-%s-*' % self.svc):
+        for f in glob.glob('/dev/shm/squid-%s-*' % self.svc) + glob.glob('/dev/shm/%s-*' % self.svc):
             try:
                 os.unlink(f)
             except OSError:
@@ -325,7 +326,9 @@ class Squid:
             self.proc.wait(5)
         except Exception:
             pass
-        for f in glob.glob('/dev/shm/squid-%s-*' % self.svc):
+        # segments named after the service and after cache_dir paths under the run directory
+        for f in (glob.glob('/dev/shm/squid-%s-*' % self.svc) + glob.glob('/dev/shm/%s-*' % self.svc) +
+                  glob.glob('/dev/shm/squid-%s.*' % self.run.strip('/').replace('/', '.'))):
             try:
                 os.unlink(f)
             except OSError:
